@@ -114,7 +114,7 @@ func opCreateClass(g *G) bool {
 			}
 		}
 	}
-	g.Do(g.App.MsgCreateClass(admin, issuers, g.id("class-md"), ct, fee), note)
+	g.Do(g.App.MsgCreateClass(admin, issuers, g.md("class-md"), ct, fee), note)
 	return true
 }
 
@@ -138,7 +138,7 @@ func opCreateProject(g *G) bool {
 	if g.bad() && g.R.Chance(1, 3) {
 		classID, note = c.ID+"1", "create project: class id that is a string extension of an existing one"
 	}
-	g.Do(g.App.MsgCreateProject(signer, classID, g.id("project-md"), g.jur(), ref, nil), note)
+	g.Do(g.App.MsgCreateProject(signer, classID, g.md("project-md"), g.jur(), ref, nil), note)
 	return true
 }
 
@@ -244,7 +244,7 @@ func opCreateBatch(g *G) bool {
 	if cl != nil && g.R.Bool() {
 		classID = cl.ID
 	}
-	g.Do(g.App.MsgCreateBatch(signer, p.ID, classID, g.issuances(1+g.R.Intn(4)), g.id("batch-md"), start, end, g.R.Chance(2, 3), o), note)
+	g.Do(g.App.MsgCreateBatch(signer, p.ID, classID, g.issuances(1+g.R.Intn(4)), g.md("batch-md"), start, end, g.R.Chance(2, 3), o), note)
 	return true
 }
 
@@ -512,8 +512,8 @@ func opBridgeReceive(g *G) bool {
 	start := g.randomDate()
 	end := start.AddDate(1, 0, 0)
 	ref := fmt.Sprintf("REF-%d", g.R.Intn(6))
-	g.Do(g.App.MsgBridgeReceive(signer, c.ID, &base.MsgBridgeReceive_Project{ReferenceId: ref, Jurisdiction: g.jur(), Metadata: g.id("bp-md")},
-		g.user(), a, start, end, g.id("bb-md"), o), note+" ("+k+")")
+	g.Do(g.App.MsgBridgeReceive(signer, c.ID, &base.MsgBridgeReceive_Project{ReferenceId: ref, Jurisdiction: g.jur(), Metadata: g.md("bp-md")},
+		g.user(), a, start, end, g.md("bb-md"), o), note+" ("+k+")")
 	return true
 }
 
@@ -550,7 +550,7 @@ func opAdminNoise(g *G) bool {
 		}
 		g.Do(g.App.MsgUpdateClassIssuers(admin, c.ID, add, rem), note)
 	case 2:
-		g.Do(g.App.MsgUpdateClassMetadata(admin, c.ID, g.id("class-md2")), "class metadata")
+		g.Do(g.App.MsgUpdateClassMetadata(admin, c.ID, g.md("class-md2")), "class metadata")
 	case 3:
 		if len(ps) == 0 {
 			return false
@@ -570,7 +570,7 @@ func opAdminNoise(g *G) bool {
 		if wrong || a < 0 || a >= NumUsers {
 			a = g.user()
 		}
-		g.Do(g.App.MsgUpdateProjectMetadata(a, p.ID, g.id("project-md2")), "project metadata")
+		g.Do(g.App.MsgUpdateProjectMetadata(a, p.ID, g.md("project-md2")), "project metadata")
 	default:
 		if len(bs) == 0 {
 			return false
@@ -584,7 +584,7 @@ func opAdminNoise(g *G) bool {
 		if !b.Open {
 			note += " (sealed batch)"
 		}
-		g.Do(g.App.MsgUpdateBatchMetadata(a, b.Denom, g.id("batch-md2")), note)
+		g.Do(g.App.MsgUpdateBatchMetadata(a, b.Denom, g.md("batch-md2")), note)
 	}
 	return true
 }
